@@ -5,7 +5,9 @@
     interleaving (any sequence of enabled thread choices) of the threads whose
     programs (lists of [writer(part, data)] / [writer.finalise(parts)] calls) are
     [progs] -- any number of threads, any program lengths -- in the model of the
-    current process-local path of [DelayedS3Writer._ensure_init]; [c_reach] the
+    current process-local path of [DelayedS3Writer._ensure_init] including the lock registry of
+    [_mpu_local_lock] ([reg0]: whether the lock was registered before; [dict.setdefault] is atomic,
+    CPython oracle contract); [c_reach] the
     same for the cluster path, a thread being (worker, program).  [new_id k] is
     the UploadId S3 returns for the (k+1)-th initiation (an oracle; assumed
     non-empty).  [progs_ok]: every [finalise] is given at least one part (else
@@ -20,14 +22,14 @@ Open Scope Z_scope.
 
 Theorem C18_local_at_most_one_create :
   forall new_id : nat -> Z, (forall k, new_id k <> 0) ->
-  forall progs s, progs_ok progs -> l_reach new_id true progs s -> (l_creates (fst s) <= 1)%nat.
+  forall reg0 progs s, progs_ok progs -> l_reach new_id true reg0 progs s -> (l_creates (fst s) <= 1)%nat.
 Proof. exact local_at_most_one_create. Qed.
 Print Assumptions C18_local_at_most_one_create.
 
 (** no writer call fails because another thread won the race (nor for any other reason) *)
 Theorem C18_local_no_thread_fails :
   forall new_id : nat -> Z, (forall k, new_id k <> 0) ->
-  forall progs s, progs_ok progs -> l_reach new_id true progs s ->
+  forall reg0 progs s, progs_ok progs -> l_reach new_id true reg0 progs s ->
   forall t th, nth_error (snd s) t = Some th -> l_failed th = false.
 Proof. exact local_no_thread_fails. Qed.
 Print Assumptions C18_local_no_thread_fails.
@@ -36,7 +38,7 @@ Print Assumptions C18_local_no_thread_fails.
     the one id, and the create that issued it is in the log *)
 Theorem C18_local_calls_under_one_id :
   forall new_id : nat -> Z, (forall k, new_id k <> 0) ->
-  forall progs s, progs_ok progs -> l_reach new_id true progs s ->
+  forall reg0 progs s, progs_ok progs -> l_reach new_id true reg0 progs s ->
   count_creates (l_log (fst s)) = l_creates (fst s) /\
   forall c, In c (l_log (fst s)) ->
     call_id c = new_id 0%nat /\ In (KCreate (new_id 0%nat)) (l_log (fst s)).
@@ -47,7 +49,7 @@ Print Assumptions C18_local_calls_under_one_id.
     complete per finalise ([k = false]), and exactly one initiation if anything was asked *)
 Theorem C18_local_finished_run :
   forall new_id : nat -> Z, (forall k, new_id k <> 0) ->
-  forall progs s, progs_ok progs -> l_reach new_id true progs s -> l_all_done s ->
+  forall reg0 progs s, progs_ok progs -> l_reach new_id true reg0 progs s -> l_all_done s ->
   (forall k, count_calls k (l_log (fst s)) = count_ops k (concat progs)) /\
   (concat progs <> [] -> l_creates (fst s) = 1%nat).
 Proof. exact local_finished_run. Qed.
@@ -56,7 +58,7 @@ Print Assumptions C18_local_finished_run.
 (** while a thread is unfinished some thread can take a step *)
 Theorem C18_local_no_deadlock :
   forall new_id : nat -> Z, (forall k, new_id k <> 0) ->
-  forall progs s, progs_ok progs -> l_reach new_id true progs s ->
+  forall reg0 progs s, progs_ok progs -> l_reach new_id true reg0 progs s ->
   forall t th, nth_error (snd s) t = Some th -> l_finished th = false ->
   exists t' lb s', l_step new_id true s t' = Some (lb, s').
 Proof. exact local_no_deadlock. Qed.
@@ -64,8 +66,8 @@ Print Assumptions C18_local_no_deadlock.
 
 (** the executable schedule runner used by the correspondence stays inside [l_reach] *)
 Theorem C18_local_schedules_are_reachable :
-  forall (new_id : nat -> Z) progs sched lbs s,
-    l_run new_id true (l_init progs) sched = Some (lbs, s) -> l_reach new_id true progs s.
+  forall (new_id : nat -> Z) reg0 progs sched lbs s,
+    l_run new_id true (l_init reg0 progs) sched = Some (lbs, s) -> l_reach new_id true reg0 progs s.
 Proof. exact local_schedules_reach. Qed.
 Print Assumptions C18_local_schedules_are_reachable.
 
@@ -73,16 +75,23 @@ Print Assumptions C18_local_schedules_are_reachable.
 Theorem C18_local_without_recheck_refuted :
   exists progs sched lbs s,
     progs_ok progs /\
-    l_run std_id false (l_init progs) sched = Some (lbs, s) /\
+    l_run std_id false (l_init true progs) sched = Some (lbs, s) /\
     exists t th, nth_error (snd s) t = Some th /\ l_pc th = LpErr (EAssert 111).
 Proof. exact l_old_code_loser_fails. Qed.
 Print Assumptions C18_local_without_recheck_refuted.
 
 (** non-vacuity: a complete racing run of two first writes *)
 Example C18_local_example :
-  exists lbs s, l_run std_id true (l_init race_progs) race_sched_fixed = Some (lbs, s) /\
+  exists lbs s, l_run std_id true (l_init true race_progs) race_sched_fixed = Some (lbs, s) /\
     l_all_done s /\ rev (l_log (fst s)) = [KCreate 1; KUpload 1 1; KUpload 2 1].
 Proof. exact l_race_example. Qed.
+
+(** non-vacuity for the very first use of the process-local lock ([reg0 = false]): both threads
+    find the registry empty, each creates a lock, the atomic [setdefault] keeps one *)
+Example C18_local_fresh_registry_example :
+  exists lbs s, l_run std_id true (l_init false race_progs) race_sched_fresh = Some (lbs, s) /\
+    l_all_done s /\ l_reg (fst s) = true /\ rev (l_log (fst s)) = [KCreate 1; KUpload 1 1; KUpload 2 1].
+Proof. exact l_fresh_registry_example. Qed.
 
 (* ---------------------------------------------------------------- cluster path *)
 (** all statements hold as long as the shared variable has not been deleted by a
